@@ -111,3 +111,49 @@ def selftest(ctx):
 @register("C12KV")
 def c12kv(ctx):
     return kv_family(ctx, "C12", ["ScanComplete"], "engine scan")
+
+
+# ------------------------------------------------------------------ per-key register family
+def reg_run(ctx, test, tracefile, summary, env, design, rule, what, tags_of=None, timeout=1200):
+    """Common shape of the register-family checks: design config(s) with TLC, the Go driver on
+    real clusters, TLC validation of the recorded histories against Register.tla."""
+    for module, cfg, kw in design:
+        vlib.design_check(ctx, module, cfg, **kw)
+    out = ctx.dir("drv")
+    e = {"VERIF_OUT": out}
+    e.update(env)
+    rc, o = vlib.go_test(ctx, "reg", test, env=e, timeout=timeout)
+    if crash_or_fail(ctx, rc, o, what):
+        return vlib.finish(ctx, {"evaluations": 0, "distinct_nontrivial": 0, "rule": rule, "samples": ["crash"]})
+    summ = json.load(open(os.path.join(out, summary)))
+    accepted, failures = vlib.validate_histories(ctx, "RegisterTrace", "RegisterTrace.cfg", os.path.join(out, tracefile),
+                                                 name=ctx.prop.lower())
+    ctx.traces = accepted
+    for seq_lines, line, msg in failures:
+        head = json.loads(seq_lines[0])
+        evs = [json.loads(l) for l in seq_lines[1:]]
+        tags = {"kind": "history"}
+        if tags_of:
+            tags.update(tags_of(head, evs, line))
+        vlib.report_failure(ctx, "%s: history of key %s rejected at line %d (%s)" % (what, head.get("keys"), line, msg),
+                            tags, {"reset": head, "history": evs, "rejected_line": line,
+                                   "replay": "concurrent history recorded from a real cluster; re-validate with RegisterTrace.tla"})
+    cov = {"evaluations": summ["evaluations"], "histories": summ["histories"],
+           "distinct_nontrivial": summ["distinct_nontrivial"], "rule": rule,
+           "samples": summ.get("samples") or [{"note": "no short non-trivial history in this run"}],
+           "configs": summ.get("configs"), "paths": summ.get("paths"), "exhaustive": False}
+    return vlib.finish(ctx, cov)
+
+
+@register("C01")
+def c01(ctx):
+    quick = ctx.tier == "quick"
+    ctx.assumptions += ["membership is stable during every recorded history (manual push/balancer mode)",
+                        "an operation that ends in a transport error may or may not have taken effect"]
+    rule = ("seeded random programs of 2-4 concurrent clients (each on a random entry path: embedded on any member, cluster client, "
+            "raw RESP to any member) x 6-13 Put/PutNX/PutXX/Get/Delete on 2-4 keys, on clusters N in 1..3, R in 1..3, single- and "
+            "multi-table fragments; one history per key; non-trivial = two operations on the key overlap in time and one of them writes; "
+            "distinct = distinct event sequences")
+    design = [("DMapKeyMC", "DMapKey_quick.cfg" if quick else "DMapKey_thorough.cfg", {"timeout": 1500})]
+    return reg_run(ctx, "TestC01", "c01.ndjson", "c01.summary.json",
+                   {"VERIF_ROUNDS": 8 if quick else 150}, design, rule, "per-key linearizability")
